@@ -1,28 +1,40 @@
 (* Model of the once-per-day series announcement of the writer (property C04, histories):
    builder.go onEntries / maybeAddFp / ConfirmSeries, the shared numbercache (one process-wide set of
-   (day, fingerprint, type) triples, emptied every 30 minutes), and the two inserts of a log/metric push
-   (time_series rows, samples rows) whose promises decide the HTTP status (controller/builder.go
-   doParse: 2xx iff every insert of the request succeeded).
+   (day, fingerprint, type) triples, emptied every 30 minutes), and the inserts of a log/metric push
+   (time_series rows, samples rows; one pair per chunk) whose promises decide the HTTP status
+   (controller/builder.go doParse: 2xx iff every insert of every chunk of the request succeeded).
    Executable definitions only; proofs in proofs/SeriesIndexProofs.v.
 
    What onEntries does for one stream (labels -> fp, entries):
      dates := set of UTC days of the entries' timestamps
      tps   := set of sample types present (1 log, 2 metric, 0 both)
      for d in dates: for t in tps:
-        if (d, fp, t) was not emitted by THIS request already and is not in the cache (maybeAddFp = !cache.Has)
-           emit the series row (d, fp, t)
-   and what doParse does once EVERY insert of the request has succeeded: ConfirmSeries puts the emitted
-   rows into the cache. (Until the fix recorded in findings.d/C04.txt the triple was put into the cache
+        if (d, fp, t) was not emitted by THIS request already (parserDoer.announced, kept for the whole request)
+           and is not in the cache (maybeAddFp = !cache.Has)
+           emit the series row (d, fp, t) into the chunk being filled
+     if the chunk (series rows + samples collected since the last flush) is now larger than 1 MiB:
+        flush: hand the chunk to doParse NOW, start an empty chunk           [Flush]
+   doParseLogs flushes the last chunk when the body ends. doParse starts the time_series insert and the samples
+   insert of EVERY chunk the moment it receives it (independent outcomes), waits for all of them once the body has
+   ended, and only when every insert of every chunk has succeeded calls ConfirmSeries for the rows of every chunk,
+   which puts them into the cache. When the parser reports a malformed body doParse answers 400 at once: inserts of
+   chunks flushed before were started and are not undone, nothing is confirmed.
+   (Until the fix recorded in findings.d/C04.txt the triple was put into the cache
    while parsing, before and regardless of the outcome of the insert: a failed series insert, or a body
    that failed to parse after some streams, kept the row back from every later request until the next
    reset. Earlier still the cache was keyed by (d, fp) only.)
-   Requests may overlap: [Begin] parses the streams received so far against the cache as it is at that moment
-   and leaves the request in flight (its body is not complete yet, nothing is sent), [End k] completes the
-   k-th request in flight: the body ends, the two inserts are made with the given outcomes,
-   [Abort k] is a request whose body turned out to be malformed after the streams parsed so far (400, no
-   insert). [Push] is Begin immediately followed by its End, [PushBad] Begin followed by Abort.
-   Not modelled: the mid-request flush above 1 MiB (requests of the generator are small), cache eviction
-   by fastcache (only causes re-announcement), distributed mode (cache disabled: Has is always false). *)
+   Requests may overlap and may be long: [Begin] parses the streams received so far against the cache as it is at that
+   moment and leaves the request in flight (its body is not complete yet), [More k] parses further streams of the k-th
+   request in flight (against its own announced rows and the cache as it is THEN), [Flush k] is the k-th request in
+   flight crossing 1 MiB: its current chunk is sent with the given outcomes of its two inserts, [End k] completes the
+   k-th request in flight: the body ends, the last chunk is sent with the given outcomes, the status is decided,
+   [Abort k] is a request whose body turned out to be malformed after the streams parsed so far (400, no further
+   insert). [Push] is Begin immediately followed by its End, [PushBad] Begin followed by Abort. The model allows a
+   Flush at any stream boundary (the code flushes only above 1 MiB): more behaviours, same theorems.
+   A chunk without series rows makes no time_series insert and a chunk without samples no samples insert
+   (InsertServiceV2.Request fulfils a request of 0 rows at once), so their scripted outcomes do not count.
+   Not modelled: cache eviction by fastcache (only causes re-announcement), the batching of several requests'
+   rows into one INSERT by the insert service (couples outcomes; the theorems quantify over all outcomes). *)
 From Coq Require Import List ZArith Bool.
 Import ListNotations.
 Open Scope Z_scope.
@@ -35,11 +47,13 @@ Record entry := { e_ts : Z; (* ns since the epoch, >= 0 *) e_type : stype }.
 Record stream := { s_fp : Z; s_entries : list entry }.
 
 Inductive action :=
-| Push (streams : list stream) (ts_ok spl_ok : bool)   (* one HTTP push handled alone; outcomes of its two inserts *)
+| Push (streams : list stream) (ts_ok spl_ok : bool)   (* one HTTP push handled alone (one chunk); outcomes of its two inserts *)
 | PushBad (streams : list stream)                       (* a push whose body is malformed after these streams: 400, no insert *)
-| Begin (streams : list stream)                         (* a push is parsed; its inserts are in flight *)
-| End (k : nat) (ts_ok spl_ok : bool)                   (* the k-th push in flight completes with these insert outcomes *)
-| Abort (k : nat)                                       (* the k-th push in flight turns out malformed: 400, no insert *)
+| Begin (streams : list stream)                         (* a push is parsed up to here; its body stays open *)
+| More (k : nat) (streams : list stream)                (* the k-th push in flight parses further streams *)
+| Flush (k : nat) (ts_ok spl_ok : bool)                 (* the k-th push in flight crosses 1 MiB: its chunk is sent now, with these insert outcomes *)
+| End (k : nat) (ts_ok spl_ok : bool)                   (* the k-th push in flight completes; outcomes of the inserts of its last chunk *)
+| Abort (k : nat)                                       (* the k-th push in flight turns out malformed: 400, no further insert *)
 | CacheReset.                                           (* the 30-minute ticker fired *)
 
 Definition day_of (ts_ns : Z) : Z := (ts_ns / 1000000000) / 86400.
@@ -80,8 +94,15 @@ Definition parse (cache : list row) (ss : list stream) : list row * list row :=
 Definition samples_of (ss : list stream) : list sample :=
   flat_map (fun s => map (fun e => (s_fp s, day_of (e_ts e), tcode (e_type e))) (s_entries s)) ss.
 
-(* a request in flight: the series rows it emitted while parsing, its samples *)
-Definition flight : Type := (list row * list sample)%type.
+(* a request in flight *)
+Record flight := {
+  f_rows : list row;           (* series rows of the chunk being filled *)
+  f_spl : list sample;         (* samples of the chunk being filled *)
+  f_ann : list row;            (* series rows of the chunks already sent *)
+  f_done : list sample;        (* samples of the chunks already sent *)
+  f_ok : bool                  (* every insert of every chunk sent so far succeeded *)
+}.
+Definition empty_flight : flight := {| f_rows := []; f_spl := []; f_ann := []; f_done := []; f_ok := true |}.
 
 Record state := {
   cache : list row;            (* (day, fingerprint, type) triples confirmed since the last reset *)
@@ -95,25 +116,41 @@ Definition is_nil {A} (l : list A) : bool := match l with [] => true | _ => fals
 
 (* what one action shows to the outside *)
 Inductive obs :=
-| OPush (ack : bool) (rows : list row) (nsamples : Z)    (* 2xx?, series rows sent to ClickHouse, samples sent *)
+| OPush (ack : bool) (rows : list row) (nsamples : Z)    (* 2xx?, series rows and samples of the LAST chunk sent to ClickHouse *)
+| OFlush (rows : list row) (nsamples : Z)                (* a chunk sent while the body is open: series rows, samples *)
 | OBad                                                    (* 400, nothing sent *)
-| OBegin                                                  (* nothing is sent before the body is complete *)
-| ONone                                                   (* End / Abort of a request that does not exist *)
+| OBegin                                                  (* nothing is sent *)
+| ONone                                                   (* More / Flush / End / Abort of a request that does not exist *)
 | OReset.
 
-(* parsing: the rows are decided against the cache as it is now; the cache is not written *)
-Definition begin_req (st : state) (ss : list stream) : flight := (snd (parse (cache st) ss), samples_of ss).
+(* parsing further streams: the rows are decided against the rows this request announced itself (in this chunk and
+   in the chunks sent before) and the cache as it is now; the cache is not written *)
+Definition more_req (st : state) (f : flight) (ss : list stream) : flight :=
+  {| f_rows := snd (fold_left on_entries ss (f_rows f ++ f_ann f ++ cache st, f_rows f));
+     f_spl := f_spl f ++ samples_of ss;
+     f_ann := f_ann f; f_done := f_done f; f_ok := f_ok f |}.
+(* a new request: rows = snd (parse (cache st) ss) *)
+Definition begin_req (st : state) (ss : list stream) : flight := more_req st empty_flight ss.
 
-(* completion: doParse waits for every insert; only when all of them succeeded the request is acknowledged
-   and ConfirmSeries enters its rows into the cache.
-   An empty time-series request is fulfilled without an insert (processRequest returns 0 rows). *)
+(* the current chunk is handed to doParse, which starts its two inserts: the request remembers what it sent and
+   whether everything went well so far. An empty time-series request is fulfilled without an insert
+   (processRequest returns 0 rows), so is an empty samples request. *)
+Definition send_chunk (f : flight) (ts_ok spl_ok : bool) : flight :=
+  {| f_rows := []; f_spl := [];
+     f_ann := f_rows f ++ f_ann f;
+     f_done := f_spl f ++ f_done f;
+     f_ok := f_ok f && (is_nil (f_rows f) || ts_ok) && (is_nil (f_spl f) || spl_ok) |}.
+Definition store_chunk (rows : list row) (f : flight) (ts_ok : bool) : list row :=
+  if ts_ok then f_rows f ++ rows else rows.
+
+(* completion: the last chunk is sent; doParse waits for every insert of every chunk; only when all of them succeeded
+   the request is acknowledged and ConfirmSeries enters the rows of every chunk into the cache. *)
 Definition finish (st : state) (f : flight) (ts_ok spl_ok : bool) (pend : list flight) : state * bool :=
-  let '(rows, spl) := f in
-  let ts_done := is_nil rows || ts_ok in
-  let ack := ts_done && spl_ok in
-  ({| cache := if ack then rows ++ cache st else cache st;
-      ts_rows := if ts_ok then rows ++ ts_rows st else ts_rows st;
-      acked := if ack then spl ++ acked st else acked st;
+  let g := send_chunk f ts_ok spl_ok in
+  let ack := f_ok g in
+  ({| cache := if ack then f_ann g ++ cache st else cache st;
+      ts_rows := store_chunk (ts_rows st) f ts_ok;
+      acked := if ack then f_done g ++ acked st else acked st;
       pending := pend |}, ack).
 
 Fixpoint remove_nth {A} (k : nat) (l : list A) : list A :=
@@ -122,6 +159,14 @@ Fixpoint remove_nth {A} (k : nat) (l : list A) : list A :=
   | O, _ :: r => r
   | S k', x :: r => x :: remove_nth k' r
   end.
+Fixpoint set_nth {A} (k : nat) (x : A) (l : list A) : list A :=
+  match k, l with
+  | _, [] => []
+  | O, _ :: r => x :: r
+  | S k', y :: r => y :: set_nth k' x r
+  end.
+
+Definition chunk_size (f : flight) : Z := Z.of_nat (length (f_spl f)).
 
 Definition step (st : state) (a : action) : state * obs :=
   match a with
@@ -129,16 +174,29 @@ Definition step (st : state) (a : action) : state * obs :=
   | Push ss ts_ok spl_ok =>
     let f := begin_req st ss in
     let '(st', ack) := finish st f ts_ok spl_ok (pending st) in
-    (st', OPush ack (fst f) (Z.of_nat (length (snd f))))
+    (st', OPush ack (f_rows f) (chunk_size f))
   | PushBad ss => (st, OBad)
   | Begin ss =>
     let f := begin_req st ss in
     ({| cache := cache st; ts_rows := ts_rows st; acked := acked st; pending := pending st ++ [f] |},
      OBegin)
+  | More k ss =>
+    match nth_error (pending st) k with
+    | Some f => ({| cache := cache st; ts_rows := ts_rows st; acked := acked st;
+                    pending := set_nth k (more_req st f ss) (pending st) |}, OBegin)
+    | None => (st, ONone)
+    end
+  | Flush k ts_ok spl_ok =>
+    match nth_error (pending st) k with
+    | Some f => ({| cache := cache st; ts_rows := store_chunk (ts_rows st) f ts_ok; acked := acked st;
+                    pending := set_nth k (send_chunk f ts_ok spl_ok) (pending st) |},
+                 OFlush (f_rows f) (chunk_size f))
+    | None => (st, ONone)
+    end
   | End k ts_ok spl_ok =>
     match nth_error (pending st) k with
     | Some f => let '(st', ack) := finish st f ts_ok spl_ok (remove_nth k (pending st)) in
-                (st', OPush ack (fst f) (Z.of_nat (length (snd f))))
+                (st', OPush ack (f_rows f) (chunk_size f))
     | None => (st, ONone)
     end
   | Abort k =>
@@ -181,7 +239,8 @@ Definition all_indexed (st : state) : bool := forallb (indexed (ts_rows st)) (ac
 Definition all_indexed_typed (st : state) : bool := forallb (indexed_typed (ts_rows st)) (acked st).
 
 (* ------------------------------------------------------------------ the code before the fix, kept to state what was wrong
-   maybeAddFp entered the triple into the cache while parsing *)
+   maybeAddFp entered the triple into the cache while parsing (requests handled alone, one chunk: the steps of
+   requests in flight are no-ops here) *)
 Definition step_old (st : state) (a : action) : state :=
   match a with
   | Push ss ts_ok spl_ok =>
@@ -202,7 +261,8 @@ Fixpoint run_old (st : state) (h : list action) : state :=
 
 (* ------------------------------------------------------------------ correspondence cases (histories) *)
 Inductive hobs :=
-| HPush (ack : bool) (rows : list row) (samples : list sample)   (* observed: status 2xx, series rows sent (sorted), sample rows sent *)
+| HPush (ack : bool) (rows : list row) (samples : list sample)   (* observed: status 2xx, series rows sent (sorted), sample rows sent (last chunk) *)
+| HFlush (rows : list row) (samples : list sample)               (* observed while the body is open: series rows sent, sample rows sent *)
 | HBad                                                            (* observed: status 400 and no insert *)
 | HBegin                                                          (* observed: nothing reached the client *)
 | HReset.
@@ -232,6 +292,7 @@ Definition obs_match (o : obs) (h : hobs) : bool :=
   | OBad, HBad => true
   | OPush ack rows n, HPush ack' rows' spl =>
     Bool.eqb ack ack' && rows_eqb (sort_rows rows) (sort_rows rows') && (n =? Z.of_nat (length spl))
+  | OFlush rows n, HFlush rows' spl => rows_eqb (sort_rows rows) (sort_rows rows') && (n =? Z.of_nat (length spl))
   | OBegin, HBegin => true
   | _, _ => false
   end.
@@ -245,20 +306,36 @@ Fixpoint obsl_match (a : list obs) (b : list hobs) : bool :=
 Definition hist_mismatch (c : hcase) : bool := negb (obsl_match (run_obs init (hc_actions c)) (hc_obs c)).
 
 (* the property's oracle on what the IMPLEMENTATION did: series rows count when their insert was
-   scripted to succeed, samples count when the push was answered 2xx *)
-Fixpoint observed_state (acts : list action) (os : list hobs) (rows : list row) (ack : list sample) : list row * list sample :=
-  match acts, os with
-  | Push _ ts_ok _ :: ar, HPush a rs spl :: orr
-  | End _ ts_ok _ :: ar, HPush a rs spl :: orr =>
-    observed_state ar orr (if ts_ok then rs ++ rows else rows) (if a then spl ++ ack else ack)
+   scripted to succeed, samples count when the push was answered 2xx. The samples a request sent in chunks
+   while its body was open are remembered per open request (same positions as [pending]: Begin appends, End / Abort
+   remove) and count when the End of that request is answered 2xx. *)
+Definition ostate : Type := (list row * list sample * list (list sample))%type.
+Definition add_nth (k : nat) (spl : list sample) (open : list (list sample)) : list (list sample) :=
+  match nth_error open k with Some l => set_nth k (spl ++ l) open | None => open end.
+Definition observe (s : ostate) (a : action) (o : hobs) : ostate :=
+  let '(rows, ack, open) := s in
+  match a, o with
+  | Push _ ts_ok _, HPush a rs spl =>
+    (if ts_ok then rs ++ rows else rows, if a then spl ++ ack else ack, open)
+  | End k ts_ok _, HPush a rs spl =>
+    (if ts_ok then rs ++ rows else rows, if a then spl ++ nth k open [] ++ ack else ack, remove_nth k open)
   (* a malformed body is run with both inserts scripted to succeed: whatever it sends is stored *)
-  | PushBad _ :: ar, HPush a rs spl :: orr
-  | Abort _ :: ar, HPush a rs spl :: orr => observed_state ar orr (rs ++ rows) (if a then spl ++ ack else ack)
-  | _ :: ar, _ :: orr => observed_state ar orr rows ack
-  | _, _ => (rows, ack)
+  | PushBad _, HPush a rs spl => (rs ++ rows, if a then spl ++ ack else ack, open)
+  | Abort k, HPush a rs spl => (rs ++ rows, if a then spl ++ nth k open [] ++ ack else ack, remove_nth k open)
+  | End k _ _, _ | Abort k, _ => (rows, ack, remove_nth k open)
+  | Begin _, HFlush rs spl => (rs ++ rows, ack, open ++ [spl])     (* (scripted to succeed) *)
+  | Begin _, _ => (rows, ack, open ++ [[]])
+  | Flush k ts_ok _, HFlush rs spl => (if ts_ok then rs ++ rows else rows, ack, add_nth k spl open)
+  | More k _, HFlush rs spl => (rs ++ rows, ack, add_nth k spl open)   (* (scripted to succeed) *)
+  | _, _ => s
+  end.
+Fixpoint observed_state (acts : list action) (os : list hobs) (s : ostate) : ostate :=
+  match acts, os with
+  | a :: ar, o :: orr => observed_state ar orr (observe s a o)
+  | _, _ => s
   end.
 Definition obs_all_indexed (typed : bool) (c : hcase) : bool :=
-  let '(rows, ack) := observed_state (hc_actions c) (hc_obs c) [] [] in
+  let '(rows, ack, _) := observed_state (hc_actions c) (hc_obs c) ([], [], []) in
   forallb (if typed then indexed_typed rows else indexed rows) ack.
 
 (* a violation: some acknowledged sample has no successfully inserted series row of its day and type *)
